@@ -24,6 +24,7 @@ import (
 	"google.golang.org/grpc"
 	"google.golang.org/grpc/codes"
 	"google.golang.org/grpc/credentials/insecure"
+	"google.golang.org/grpc/stats"
 	"google.golang.org/grpc/status"
 	"google.golang.org/protobuf/proto"
 )
@@ -46,7 +47,11 @@ type grpcBackend struct {
 	upRecs  map[string][]upload
 
 	started, finished atomic.Int64
-	st                *stallTracker
+	// the proxies' own view: RPCs begun and not ended on their client
+	// connections (a stream that is neither read to its end nor cancelled
+	// stays open there, whatever the server has already sent)
+	clientOpen atomic.Int64
+	st         *stallTracker
 
 	conns []*grpc.ClientConn
 	px    cache.Proxy
@@ -58,6 +63,21 @@ type grpcBackend struct {
 	asset.UnimplementedFetchServer
 	bs.UnimplementedByteStreamServer
 }
+
+// clientRPCStats counts the RPCs open on a proxy's client connection.
+type clientRPCStats struct{ b *grpcBackend }
+
+func (clientRPCStats) TagRPC(ctx context.Context, _ *stats.RPCTagInfo) context.Context { return ctx }
+func (c clientRPCStats) HandleRPC(_ context.Context, s stats.RPCStats) {
+	switch s.(type) {
+	case *stats.Begin:
+		c.b.clientOpen.Add(1)
+	case *stats.End:
+		c.b.clientOpen.Add(-1)
+	}
+}
+func (clientRPCStats) TagConn(ctx context.Context, _ *stats.ConnTagInfo) context.Context { return ctx }
+func (clientRPCStats) HandleConn(context.Context, stats.ConnStats)                       {}
 
 type gObj struct {
 	logical []byte
@@ -102,6 +122,7 @@ func newGRPCBackend(mode string, numUploaders, maxQueued int) (*grpcBackend, err
 
 func (b *grpcBackend) mkProxy(numUploaders, maxQueued int) (cache.Proxy, error) {
 	conn, err := grpc.NewClient(b.addr, grpc.WithTransportCredentials(insecure.NewCredentials()),
+		grpc.WithStatsHandler(clientRPCStats{b}),
 		grpc.WithDefaultCallOptions(grpc.MaxCallRecvMsgSize(64*lib.MiB), grpc.MaxCallSendMsgSize(64*lib.MiB)))
 	if err != nil {
 		return nil, err
@@ -131,10 +152,16 @@ func (b *grpcBackend) newPeerProxy() cache.Proxy {
 }
 func (b *grpcBackend) uploaders() int                 { b.mu.Lock(); defer b.mu.Unlock(); return b.nUp }
 func (b *grpcBackend) sizeAware(cache.EntryKind) bool { return true }
-func (b *grpcBackend) openConns() int                 { return int(b.started.Load() - b.finished.Load()) }
-func (b *grpcBackend) connSlack() int                 { return 0 }
-func (b *grpcBackend) stalls() *stallTracker          { return b.st }
-func (b *grpcBackend) closeIdle()                     {}
+func (b *grpcBackend) openConns() int {
+	srv, cl := int(b.started.Load()-b.finished.Load()), int(b.clientOpen.Load())
+	if cl > srv {
+		return cl
+	}
+	return srv
+}
+func (b *grpcBackend) connSlack() int        { return 0 }
+func (b *grpcBackend) stalls() *stallTracker { return b.st }
+func (b *grpcBackend) closeIdle()            {}
 func (b *grpcBackend) reqCount(hash string) int {
 	b.mu.Lock()
 	defer b.mu.Unlock()
